@@ -14,6 +14,7 @@ typing_ref.templates()
 N = envint("VF_N", 3)
 PRE = envstr("VF_PRE", "")
 SUF = envstr("VF_SUF", "")
+SUF2 = envstr("VF_SUF2", SUF)         # suffix of the second Sid (e.g. a query that will be refused)
 TYPES = [""] + list(conf.sid_templates.keys())
 TI = envint("VF_TI", 0)
 TJ = envint("VF_TJ", 0)
@@ -31,7 +32,9 @@ def eq_uri(a: str, b: str) -> bool:
     pre: '?' not in a and ':' not in a and '?' not in b and ':' not in b
     post: _
     """
-    A, B = _mk(TI, PRE + a + SUF), _mk(TJ, PRE + b + SUF)
+    if env.CACHES:
+        env.clear_caches()
+    A, B = _mk(TI, PRE + a + SUF), _mk(TJ, PRE + b + SUF2)
     same = A.uri == B.uri
     if (A == B) != same or (B == A) != same:
         return fail("eq-vs-uri")
